@@ -35,6 +35,7 @@ import (
 	"github.com/lindb/lindb/constants"
 	"github.com/lindb/lindb/flow"
 	"github.com/lindb/lindb/kv"
+	"github.com/lindb/lindb/kv/version"
 	"github.com/lindb/lindb/metrics"
 	"github.com/lindb/lindb/models"
 	"github.com/lindb/lindb/pkg/timeutil"
@@ -288,7 +289,18 @@ func (f *dataFamily) Flush() error {
 		f.immutableSeq = immutableSeq
 		f.mutex.Unlock()
 
-		if err := f.flushMemoryDatabase(immutableSeq, waitingFlushMemDB); err != nil {
+		// the file becomes visible to Filter in the same critical section in which the immutable
+		// memory database becomes invisible: a query sees the flushed points exactly once.
+		commitFn := func(commit func() error) error {
+			f.mutex.Lock()
+			defer f.mutex.Unlock()
+			if err := commit(); err != nil {
+				return err
+			}
+			f.immutableMemDB = nil
+			return nil
+		}
+		if err := f.flushMemoryDatabase(immutableSeq, waitingFlushMemDB, commitFn); err != nil {
 			return err
 		}
 
@@ -396,11 +408,16 @@ func (f *dataFamily) Filter(executeCtx *flow.ShardExecuteContext) (resultSet []f
 	f.lastReadTime.Store(fasttime.UnixMilliseconds())
 	// NOTE: not found in memory(or files) just means the other one holds all matched series,
 	// cannot ignore the result of the other one.
+	// memory databases and the version of the files are picked in one critical section (see Flush)
+	f.mutex.Lock()
 	memRS, memErr := f.memoryFilter(executeCtx)
 	if memErr != nil && !errors.Is(memErr, constants.ErrNotFound) {
+		f.mutex.Unlock()
 		return nil, memErr
 	}
-	fileRS, fileErr := f.fileFilter(executeCtx)
+	snapShot := f.family.GetSnapshot()
+	f.mutex.Unlock()
+	fileRS, fileErr := f.fileFilter(executeCtx, snapShot)
 	if fileErr != nil && !errors.Is(fileErr, constants.ErrNotFound) {
 		return nil, fileErr
 	}
@@ -477,8 +494,7 @@ func (f *dataFamily) memoryFilter(shardExecuteContext *flow.ShardExecuteContext)
 		resultSet = append(resultSet, rs...)
 		return nil
 	}
-	f.mutex.Lock()
-	defer f.mutex.Unlock()
+	// NOTE: the caller holds f.mutex
 	if f.mutableMemDB != nil {
 		if err := memFilter(f.mutableMemDB); err != nil {
 			return nil, err
@@ -495,8 +511,7 @@ func (f *dataFamily) memoryFilter(shardExecuteContext *flow.ShardExecuteContext)
 	return resultSet, nil
 }
 
-func (f *dataFamily) fileFilter(shardExecuteContext *flow.ShardExecuteContext) (resultSet []flow.FilterResultSet, err error) {
-	snapShot := f.family.GetSnapshot()
+func (f *dataFamily) fileFilter(shardExecuteContext *flow.ShardExecuteContext, snapShot version.Snapshot) (resultSet []flow.FilterResultSet, err error) {
 	defer func() {
 		if err != nil || len(resultSet) == 0 {
 			// if not find metrics data or has error, close snapshot directly
@@ -642,7 +657,7 @@ func (f *dataFamily) Close() error {
 	f.flushCondition.Wait()
 
 	if f.immutableMemDB != nil {
-		if err := f.flushMemoryDatabase(f.immutableSeq, f.immutableMemDB); err != nil {
+		if err := f.flushMemoryDatabase(f.immutableSeq, f.immutableMemDB, nil); err != nil {
 			return err
 		}
 	}
@@ -651,7 +666,7 @@ func (f *dataFamily) Close() error {
 		for leader, seq := range f.seq {
 			sequences[leader] = seq.Load()
 		}
-		if err := f.flushMemoryDatabase(sequences, f.mutableMemDB); err != nil {
+		if err := f.flushMemoryDatabase(sequences, f.mutableMemDB, nil); err != nil {
 			return err
 		}
 	}
@@ -663,14 +678,31 @@ func (f *dataFamily) Close() error {
 	return nil
 }
 
-// flushMemoryDatabase flushes memory database to disk.
-func (f *dataFamily) flushMemoryDatabase(sequences map[int32]int64, memDB memdb.MemoryDatabase) error {
+// commitFlusher runs the commit of the kv flusher through commitFn.
+type commitFlusher struct {
+	kv.Flusher
+	commitFn func(commit func() error) error
+}
+
+// Commit flushes data and commits metadata.
+func (cf *commitFlusher) Commit() error {
+	return cf.commitFn(cf.Flusher.Commit)
+}
+
+// flushMemoryDatabase flushes memory database to disk,
+// commitFn(optional) wraps the commit of the new file.
+func (f *dataFamily) flushMemoryDatabase(sequences map[int32]int64, memDB memdb.MemoryDatabase,
+	commitFn func(commit func() error) error,
+) error {
 	startTime := time.Now()
 	flusher := f.family.NewFlusher()
 	defer func() {
 		flusher.Release()
 		f.statistics.MemDBFlushDuration.UpdateSince(startTime)
 	}()
+	if commitFn != nil {
+		flusher = &commitFlusher{Flusher: flusher, commitFn: commitFn}
+	}
 
 	for leader, seq := range sequences {
 		flusher.Sequence(leader, seq)
